@@ -672,4 +672,73 @@ theorem tgtAt_idx (s : Schema) (cap m : Nat) (hcap : s.maxDepth ≤ cap)
   have := at?_depth p s t h
   simp [tgtAt, cbAlong_idx cap m p s t [] h (by simp; omega) har]
 
+
+/-- lexicographic order of two index paths that diverge before either ends -/
+def LexLt : List Nat → List Nat → Prop
+  | i :: r, i' :: r' => i < i' ∨ (i = i' ∧ LexLt r r')
+  | _, _ => False
+
+
+theorem go_heads_ge : ∀ (cs : List Schema) (k : Nat) (p : List Nat), p ∈ Schema.leaves.go cs k → ∃ i r, p = i :: r ∧ k ≤ i := by
+  intro cs k p h
+  obtain ⟨i, c, rest, _, h2, _⟩ := mem_leaves_go cs k p h
+  exact ⟨k + i, rest, h2, by omega⟩
+
+theorem go_pairwise : ∀ (cs : List Schema) (k : Nat), (∀ c ∈ cs, c.leaves.Pairwise LexLt) →
+    (Schema.leaves.go cs k).Pairwise LexLt
+  | [], _, _ => by simp [Schema.leaves.go]
+  | c :: cs, k, h => by
+    simp only [Schema.leaves.go]
+    rw [List.pairwise_append]
+    refine ⟨?_, go_pairwise cs (k + 1) (fun c' hc' => h c' (by simp [hc'])), ?_⟩
+    · rw [List.pairwise_map]
+      exact (h c (by simp)).imp (fun hab => Or.inr ⟨rfl, hab⟩)
+    · intro a ha b hb
+      simp only [List.mem_map] at ha
+      obtain ⟨x, _, rfl⟩ := ha
+      obtain ⟨i, r, rfl, hi⟩ := go_heads_ge cs (k + 1) b hb
+      exact Or.inl (by omega)
+
+/-- the leaves are listed in strictly increasing lexicographic order -/
+theorem leaves_pairwise : ∀ (d : Nat) (s : Schema), s.maxDepth ≤ d → s.leaves.Pairwise LexLt := by
+  intro d
+  induction d with
+  | zero =>
+    intro s hd
+    cases s with
+    | leaf => simp [Schema.leaves]
+    | node lk cs => simp [Schema.maxDepth] at hd
+    | array n c => simp [Schema.maxDepth] at hd
+  | succ d ih =>
+    intro s hd
+    cases hs : s.isLeaf with
+    | true => cases s <;> simp_all [Schema.isLeaf, Schema.leaves]
+    | false =>
+      have hne : s ≠ .leaf := by intro e; subst e; simp [Schema.isLeaf] at hs
+      rw [leaves_eq_kids s hne]
+      apply go_pairwise
+      intro c hc
+      obtain ⟨i, hi⟩ := List.getElem?_of_mem hc
+      have := kid_maxDepth s c i hi
+      exact ih c (by omega)
+
+
+
+theorem at?_leaf_mem : ∀ (p : List Nat) (s : Schema), s.at? p = some .leaf → p ∈ s.leaves := by
+  intro p
+  induction p with
+  | nil => intro s h; simp only [Schema.at?, Option.some.injEq] at h; subst h; simp [Schema.leaves]
+  | cons i p ih =>
+    intro s h
+    rw [at?_cons] at h
+    cases hk : s.kids[i]? with
+    | none => simp [hk] at h
+    | some c =>
+      simp only [hk] at h
+      have hne : s ≠ .leaf := by intro e; subst e; simp [Schema.kids] at hk
+      rw [leaves_eq_kids s hne]
+      have := leaves_go_mem_of s.kids 0 i c p hk (ih c h)
+      simpa using this
+
+
 end MiniconfVerif
